@@ -254,6 +254,28 @@ def shard_forms(m, items, inputs=()):
                 m.add('nontrivial')
 
 
+def named_composites(prof):
+    """Names and overrides applied to composite value expressions: every pair (and the triples with a
+    middle token) of value-bearing atoms, including atoms whose value is falsy ([] '' None)."""
+    t1, t2 = prof
+    atoms = [('tok', t1), ('tok', t2), ('clo', ('tok', t2)), ('opt', ('tok', t2)), ('eclo',), ('pat', f'(?:{_re.escape(t2)})*'),
+             ('call', 'r'), ('call', 's'), ('const', 'k'), ('pclo', ('tok', t1)), ('gather', ('tok', t2), ('tok', t1))]
+    out = []
+    for a in atoms:
+        for b in atoms:
+            for op in ('named', 'nlist', 'ovr', 'ovrl'):
+                grp = ('grp', ('seq', a, b))
+                e = (op, 'x', grp) if op in ('named', 'nlist') else (op, grp)
+                out.append(e)
+                out.append(('seq', e, ('tok', t1)))
+            out.append(('named', 'x', ('grp', ('alt', ('seq', a, b), ('tok', t1)))))
+            out.append(('named', 'x', ('opt', ('seq', a, b))))
+    for a in atoms[:6]:
+        for b in atoms[:6]:
+            out.append(('named', 'x', ('grp', ('seq', a, ('tok', t1), b))))
+    return out
+
+
 def shard_helper_starts(m, items, inputs=(), prof=('a', 'b')):
     """Parsing from any rule named as start: the helper rules themselves."""
     g = build_grammar(('tok', prof[0]), helpers_for(*prof))
@@ -281,9 +303,10 @@ def run(rc):
     rc.rule = (f'token profile {prof} (selected by VERIF_SEED among {PROFILES}); all expression trees with <= {maxn} nodes over leaves {{t1 t2 /t1/ /t2+/ r R s () !() $ /./ `k` {{}}}} and '
                'operators {group optional closure +closure & ! -> x: x+: @: @+: sequence choice join gather (+/-)}, each compiled from text as '
                f'`start` with helper rules, x all strings over the tokens\' characters and space of length <= {maxlen}; compared with the reference evaluator on '
-               'accept/reject, end offset (through a wrapper rule capturing the rest) and AST; plus rule includes, based rules and @override rules against their '
+               'accept/reject, end offset (through a wrapper rule capturing the rest) and AST; plus names/overrides over every pair of value-bearing atoms (incl. falsy values), rule includes, based rules and @override rules against their '
                'documented expansions and the reference, and parses started from each helper rule; non-trivial = accepted and consumed input')
     rc.pmap(shard, exps, inputs=inputs, prof=prof)
+    rc.pmap(shard, named_composites(prof), inputs=inputs, prof=prof)
     rc.pmap(shard_forms, rule_forms(), chunk=1, inputs=list(gs.inputs(['a', 'b', ' '], maxlen + 1)))
     rc.pmap(shard_helper_starts, ['r', 'R', 's', 'REST'], chunk=1, inputs=inputs, prof=prof)
     c = rc.total.counts
